@@ -63,6 +63,9 @@ func c04Accounts(cfg map[string]int) []c04Acct {
 func runC04(w *World) {
 	cfg := w.Case.Cfg
 	accts := c04Accounts(cfg)
+	// the password an administrator sets later; half of the time its first byte is 0xFF (0x00 on the wire, where a
+	// single 0x00 byte means "password unchanged")
+	newpw := []string{"newpw", "\xffnewpw"}[cfg["acctseed"]%2]
 	all := rp.AllAccess().Without(rp.PNoAgreement)
 	for _, a := range accts {
 		w.AddAccount(a.Login, "Name of "+a.Login, a.Pw, all)
@@ -103,9 +106,9 @@ func runC04(w *World) {
 				var ok bool
 				switch cfg["history"] {
 				case 1:
-					rep, ok = c.UpdateUsers([]UserEdit{{Kind: "rename", Login: "retired", NewLogin: "renamed", Name: "Renamed", Access: all, PwMode: PwNew, Pw: "newpw"}})
+					rep, ok = c.UpdateUsers([]UserEdit{{Kind: "rename", Login: "retired", NewLogin: "renamed", Name: "Renamed", Access: all, PwMode: PwNew, Pw: newpw}})
 				case 2:
-					rep, ok = c.SetUser("retired", "Retired", all, PwNew, "newpw")
+					rep, ok = c.SetUser("retired", "Retired", all, PwNew, newpw)
 				case 3:
 					rep, ok = c.DeleteUser("retired")
 				}
@@ -229,7 +232,7 @@ func runC04(w *World) {
 			case 10: // the credentials that were valid before the administrator's edit
 				login, pw, match = "retired", "oldpw", cfg["history"] == 0
 			case 11: // the credentials the edit established
-				login, pw = "retired", "newpw"
+				login, pw = "retired", newpw
 				if cfg["history"] == 1 {
 					login = "renamed"
 				}
